@@ -206,7 +206,7 @@ CONSERVING = ("Table::enqueue_strand", SS + "on_coinductive_subgoal", SS + "on_p
 def strand_sinks(body):
     """blocks that hand a strand on: a conserving call receiving a moved strand, or a write to StackEntry.active_strand"""
     cfg = body.cfg
-    loc = body.mir["locals"]
+    loc = body.cfg.locals
     out = set()
     for i, blk in enumerate(cfg.blocks):
         t = blk["t"]
